@@ -68,6 +68,7 @@ type monState struct {
 	logsPending  map[string]*pendingLogs // job removed by a save whose log files were still there in the step of the removal
 	removeFailed map[string]bool         // jobs whose log removal failed by injection
 	goneBySave   map[string]int          // job -> step in which a save removed it from the runner
+	forcedAt     map[string]int          // job with a task in flight when a forced shutdown's deadline passed -> that step
 	snapAtSave   map[int]*Snap       // handed-save index -> API snapshot at the instant the snapshot was built
 	lastChangeAt time.Duration       // fake time of the last step that changed the reported state
 	liveExec      map[string]int     // job -> scheduler runs begun and not yet completed
@@ -79,7 +80,7 @@ type monState struct {
 func newMonState(run *Run) *monState {
 	return &monState{run: run, acc: map[string]*acceptInfo{}, evByJob: map[string][]Event{},
 		startStep: map[string]int{}, startAt: map[string]time.Duration{}, defChanged: map[string]int{},
-		removed: map[string]int{}, firstFail: map[string]int{}, replaced: map[string]bool{}, logsPending: map[string]*pendingLogs{}, removeFailed: map[string]bool{}, goneBySave: map[string]int{}, taskOrderByDef: map[string]string{},
+		removed: map[string]int{}, firstFail: map[string]int{}, replaced: map[string]bool{}, logsPending: map[string]*pendingLogs{}, removeFailed: map[string]bool{}, goneBySave: map[string]int{}, forcedAt: map[string]int{}, taskOrderByDef: map[string]string{},
 		worldOfJob: map[string]int{}, forcedCancel: map[string]bool{}, undefinedAt: map[string]int{},
 		lastSeen: map[string]*JobSnap{}, snapAtSave: map[int]*Snap{}, initialLoaded: "[]",
 		liveExec: map[string]int{}, execPipeline: map[string]string{}}
@@ -291,6 +292,10 @@ func (m *monState) onStep(si *StepInfo, pre, post *Snap, evs []Event) {
 		for n, j := range pre.Jobs {
 			if j.Running() {
 				m.forcedCancel[n] = true
+				// a forced shutdown is a cancel of every running job: those with a task in flight must be told to stop
+				if _, seen := m.forcedAt[n]; !seen && m.taskInFlight(n) {
+					m.forcedAt[n] = si.N
+				}
 			}
 		}
 	}
@@ -490,6 +495,20 @@ func canonPipes(ps []PipeInfo) string {
 	c := append([]PipeInfo(nil), ps...)
 	sort.Slice(c, func(i, j int) bool { return c[i].Pipeline < c[j].Pipeline })
 	return fmt.Sprint(c)
+}
+
+// taskInFlight: is a task of the job between run-enter and run-exit (by the stub's events so far)?
+func (m *monState) taskInFlight(job string) bool {
+	enter := map[string]bool{}
+	for _, e := range m.evByJob[job] {
+		switch e.Kind {
+		case "run-enter":
+			enter[e.Task] = true
+		case "run-exit":
+			delete(enter, e.Task)
+		}
+	}
+	return len(enter) > 0
 }
 
 func brief(j *JobSnap) string {
@@ -1267,6 +1286,9 @@ func (m *monState) onEnd() {
 
 func (m *monState) checkCancelOutcome(name string, j *JobSnap) {
 	run := m.run
+	if st, ok := m.forcedAt[name]; ok && run.stats.Drained && m.worldOfJob[name] == run.cur.id && len(m.events(name, "cancel-delivered")) == 0 {
+		run.violate("C11", "r6b", "forced shutdown: job %s had a task running when the deadline passed (step %d), it is reported %s, but its tasks were never told to stop (they ran to their natural end)", name, st, brief(j))
+	}
 	for _, c := range m.cancels {
 		if c.Job != name || c.World != run.cur.id {
 			continue
